@@ -8,7 +8,7 @@
 From VF Require Import Base.Prelude Gen.Enums Gen.Configs Gen.Policy Gen.Registry Gen.Checks
      Gen.MatDesc Gen.InstChecks Gen.Scopes Model.Recipe Model.Check Model.Graph
      Model.Plan Model.Perform Spec.WF Proofs.ListFacts Proofs.PerformStep Proofs.ModeProofs Proofs.PlanProofs
-     Proofs.UntouchedProofs Model.Insts Proofs.InstsCover Proofs.GroupNest Proofs.ReadersProofs Proofs.PerformInv Proofs.SkeletonInv Proofs.ReadersOrig Spec.LastOk Proofs.LastOkSound Model.Pipeline.
+     Proofs.UntouchedProofs Model.Insts Proofs.InstsCover Proofs.GroupNest Proofs.ReadersProofs Proofs.PerformInv Proofs.SkeletonInv Proofs.ReadersOrig Spec.LastOk Proofs.LastOkSound Model.Pipeline Proofs.GroupLists.
 
 (* (a) mode -> per-operand transformation, for EVERY config in one of the
    three modes (static-range: integer compute with an activation config;
@@ -606,6 +606,39 @@ Theorem C03_horizontal_grouping_produces_nests :
       NoDup (flat lv) /\ forall lv', nth_opt groups (S j) = Some lv' -> nested_in lv lv'.
 Proof. exact groups_are_nests. Qed.
 Print Assumptions C03_horizontal_grouping_produces_nests.
+
+(* From groups to LISTS (Proofs/GroupLists.v): any two groups at any two depths
+   are nested or disjoint; every consumer-side instruction the generator builds
+   for a plan entry (vertical candidates and the instructions of depth >= 2,
+   before the vertical rewrites, which keep each rule's consumer list) lists
+   exactly the operators of ONE group; so, when distinct consumer entries name
+   distinct operators (`inj_ops`), the consumer lists of two such instructions
+   are nested or disjoint — the shape `ok_list` asks for. *)
+Theorem C03_groups_at_any_depths_are_nested_or_disjoint :
+  forall p groups, group_consumer_transformations p = Ok groups ->
+  forall d d' lv lv' g g', (d <= d')%nat ->
+    nth_opt groups d = Some lv -> nth_opt groups d' = Some lv' -> In g lv -> In g' lv' ->
+    incl g' g \/ (forall x, In x g' -> ~ In x g).
+Proof. exact groups_nested_or_disjoint. Qed.
+Print Assumptions C03_groups_at_any_depths_are_nested_or_disjoint.
+
+Theorem C03_consumer_side_instructions_list_one_group_each :
+  forall p info groups vert others,
+    group_consumer_transformations p = Ok groups ->
+    vertical_candidates groups p info = Ok vert ->
+    other_consumer_insts groups p info = Ok others ->
+    Forall (from_group (consumers_list p) groups) (vert ++ others).
+Proof. exact consumer_side_instructions_list_groups. Qed.
+Print Assumptions C03_consumer_side_instructions_list_one_group_each.
+
+Theorem C03_consumer_lists_of_two_groups_are_nested_or_disjoint :
+  forall p groups i1 i2 d d' lv lv' g g',
+    group_consumer_transformations p = Ok groups -> inj_ops (consumers_list p) -> (d <= d')%nat ->
+    nth_opt groups d = Some lv -> nth_opt groups d' = Some lv' -> In g lv -> In g' lv' ->
+    op_image (consumers_list p) g (i_consumers i1) -> op_image (consumers_list p) g' (i_consumers i2) ->
+    incl (i_consumers i2) (i_consumers i1) \/ (forall c, In c (i_consumers i2) -> ~ In c (i_consumers i1)).
+Proof. exact consumer_lists_nested_or_disjoint. Qed.
+Print Assumptions C03_consumer_lists_of_two_groups_are_nested_or_disjoint.
 
 (* non-vacuity: a quantized producer (DEQUANTIZE with A) read by
    op 3 (QUANTIZE with A), ops 4 and 6 (QUANTIZE with B, then DEQUANTIZE) and
